@@ -35,6 +35,8 @@ CONSTANTS
   GcProtectsBuilding,   \* TRUE (code: the SegmentMeta inventory) | FALSE (living files = registers only)
   MaxFaults,            \* I/O errors injected into the meta.json replacement (0: none)
   StoreMetaFirst,       \* FALSE (code: the active metas are replaced AFTER the durable write) | TRUE (seeded C11-s9)
+  ReplaceStaleDel,      \* TRUE (code since the F45 repair: a left-over delete file of the same name is replaced)
+                        \* | FALSE (open_write refuses it: the commit fails on a healthy storage)
   KillWaits             \* TRUE (code since the F43 repair: rollback waits for the task the old updater is running)
                         \* | FALSE (the task goes on next to the new writer and saves ITS metas)
 
@@ -126,12 +128,17 @@ CommitDelFile ==
          f == Del(r.s, r.del)
          old == IF OldDelDeletedEarly
                 THEN {Del(x.s, x.del) : x \in {y \in regs : y.s = r.s /\ y.del > 0}} ELSE {}
-     IN /\ manV' = Append(manV, LastMan \cup {f})
-        /\ exists' = (exists \cup {f}) \ old
-        /\ termd' = termd \cup {f}
-        /\ ghosts' = ghosts \cup (old \cap entDur)
-  /\ upc' = "sync1"
-  /\ UNCHANGED <<entDur, live, metaV, metaDur, manDur, regs, building, nextS, ujob, gc, ncommit, active, ondisk, faults, stale, ackedIdx>>
+     IN IF f \in exists /\ ~ReplaceStaleDel
+        THEN \* a delete file of that name is left over from a failed commit with the same opstamp:
+             \* open_write refuses it, the commit fails although the storage is healthy
+             /\ upc' = "failed" /\ UNCHANGED <<svars, ujob>>
+        ELSE /\ manV' = Append(manV, LastMan \cup {f})
+             /\ exists' = (exists \cup {f}) \ old
+             /\ termd' = termd \cup {f}
+             /\ ghosts' = ghosts \cup (old \cap entDur)
+             /\ upc' = "sync1"
+             /\ UNCHANGED <<entDur, live, metaV, metaDur, manDur, ujob>>
+  /\ UNCHANGED <<regs, building, nextS, gc, ncommit, active, ondisk, faults, stale, ackedIdx>>
 SegIds(R) == {r.s : r \in R}
 AddsSegment == \E r \in ujob.newregs : Seg(r.s) \notin LastMeta.files
 UpdSync1 ==
@@ -164,7 +171,8 @@ UpdMetaFail ==
 Reopen ==
   /\ upc = "dead" /\ building = NoB
   /\ regs' = ondisk /\ active' = FilesOf(ondisk) /\ upc' = "idle"
-  /\ UNCHANGED <<svars, building, nextS, ujob, gc, ncommit, ondisk, faults, stale, ackedIdx>>
+  /\ ncommit' = LastMeta.op       \* the new writer's stamper starts at the committed opstamp again
+  /\ UNCHANGED <<svars, building, nextS, ujob, gc, ondisk, faults, stale, ackedIdx>>
 \* IndexWriter::garbage_collect_files, any time the updater is idle
 ExplicitGc ==
   /\ upc = "idle" /\ ujob = NoJob /\ faults > 0
@@ -252,6 +260,8 @@ Spec == Init /\ [][Next]_vars
 (* ---------------------------------- properties ---------------------------------- *)
 \* C01 (2): whatever survives a crash, it is the last acknowledged commit or a later state
 CrashDurable == Lo(metaDur) >= ackedIdx
+\* C11: a commit never fails on a healthy storage (no injected fault in this task)
+NoSpuriousFailure == upc # "failed"
 \* C01 / C02 / C05: the visible meta.json never falls back behind an acknowledged commit
 NoCommitLost == LastMeta.op >= metaV[ackedIdx].op
 \* C01 (3)(4): CrashSafe (Storage.tla): every surviving meta.json finds all its files, complete
